@@ -357,6 +357,23 @@ fn quotient_case(e: &Env, q: &Big, d: i128, k: i128) -> Option<(Big, Big)> {
     Some((Big::from_i256(&x), Big::from_i128(d)))
 }
 
+/// The same for the i128 functions: factors x, y (both i128) and a denominator d with x * y = q * d + k, 0 < |k| < |d|, the
+/// truncated quotient exactly `q` at the edge of i128 - so that floor / ceil step onto or over i128::MIN / i128::MAX.
+fn quotient_case_128(e: &Env, q: i128, d: i128, y: i128) -> Option<i128> {
+    let (qi, di, yi, zero) = (I256::from_i128(e, q), I256::from_i128(e, d), I256::from_i128(e, y), I256::from_i128(e, 0));
+    let prod = qi.mul(&di);
+    let neg = if q == 0 { d < 0 } else { prod < zero };
+    for k in 1..d.unsigned_abs().min(64) as i128 {
+        let n = if neg { prod.sub(&I256::from_i128(e, k)) } else { prod.add(&I256::from_i128(e, k)) };
+        if n.rem_euclid(&yi) == zero {
+            if let Some(x) = Big::from_i256(&n.div(&yi)).to_i128() {
+                return Some(x);
+            }
+        }
+    }
+    None
+}
+
 fn quotient_targets() -> Vec<Big> {
     let mut v = vec![];
     for (k, delta) in [(127usize, 0i8), (127, 1), (127, -1), (64, 0), (64, 1), (64, -1), (63, 0), (128, 0), (128, -1), (200, 1)] {
@@ -423,6 +440,16 @@ fn main() {
                     }
                     for d in [p(255, 0, true), p(255, -1, false), p(200, 1, true)] {
                         t.step(sys.step(&json!({"op": "i256", "mode": mode, "x": x, "y": y, "d": d})));
+                    }
+                }
+            }
+            // quotient-targeted i128 cases: truncated quotient exactly i128::MAX, MAX - 1, MIN, MIN + 1, inexact
+            for mode in modes.iter().copied().filter(|_| seed % 1000 == 0) {
+                for q in [i128::MAX, i128::MAX - 1, i128::MIN, i128::MIN + 1] {
+                    for (d, y) in [(5i128, 7i128), (-5, 7), (5, -7), (3, 11), (-3, -11), (1_000_003, 2_000_003), (-1_000_003, 2_000_003)] {
+                        if let Some(x) = quotient_case_128(&sys.e, q, d, y) {
+                            t.step(sys.step(&json!({"op": "i128", "mode": mode, "x": h(x), "y": h(y), "d": h(d)})));
+                        }
                     }
                 }
             }
